@@ -453,6 +453,9 @@ func (b *builder) backendOp(kind string, mod int, after ...proto.Ref) proto.Op {
 		op.GLSL = &o
 	case proto.OpHLSL:
 		o := hlslPreset(b.r, p)
+		// the caller keeps one *hlsl.Options for all its HLSL calls and edits
+		// it between them
+		o.ReuseOptions = b.r.chance(0.5)
 		op.HLSL = &o
 	case proto.OpDXIL:
 		o := dxilPreset(b.r, p)
@@ -490,6 +493,10 @@ func (b *builder) drawFaults(nSites int, allowPreempt bool) {
 		}
 		b.sc.Perm = simrt.PermSpec{Mode: pick(r, []string{simrt.PermReverse, simrt.PermRandom, simrt.PermRotate}), Seed: r.next(), K: 1 + r.intn(3), Sites: s}
 	}
+	// pool behaviour (only matters if the tree uses sync.Pool: latent seam)
+	if r.chance(0.5) {
+		b.sc.PoolSeed = r.next() | 1
+	}
 	// schedule
 	b.sc.Sched = proto.Sched{Seed: r.next()}
 	if allowPreempt && len(b.sc.Tasks) > 1 {
@@ -498,6 +505,7 @@ func (b *builder) drawFaults(nSites int, allowPreempt bool) {
 		if r.chance(0.1) {
 			b.sc.Sched.StarveTask = 1 + r.intn(len(b.sc.Tasks))
 		}
+		b.sc.Sched.SyncPreempt = pick(r, []int{0, 20, 100, 300})
 		if b.sc.Sched.MeanQuantum > 0 && b.sc.Sched.MeanQuantum <= 50 {
 			b.sc.Monitor = 8
 		}
